@@ -1292,9 +1292,24 @@ func (h *hist) stepSaveLoad() {
 	if len(h.v.ents) != 0 {
 		h.run.Inc("aux_pool_not_empty_after_init")
 	}
+	cut := false
+	if h.r.Intn(3) == 0 {
+		// the pool file is not written atomically: a process killed (or a disk filling up) while MempoolSave runs leaves
+		// a prefix of it. Whatever the load makes of that, the pool it leaves behind has to be consistent.
+		fn := common.GocoinHomeDir + txpool.MEMPOOL_FILE_NAME
+		if st, er := os.Stat(fn); er == nil && st.Size() > 1 {
+			os.Truncate(fn, int64(h.r.Intn(int(st.Size()))))
+			cut = true
+			h.note("pool file cut")
+			h.run.Inc("reloads_of_a_cut_pool_file")
+		}
+	}
 	h.enter("MempoolLoad")
 	ok := txpool.MempoolLoad()
 	h.leave()
+	if cut && !ok {
+		h.run.Inc("cut_pool_files_refused")
+	}
 	h.run.Inc("reloads")
 	if !h.check(true) {
 		return
